@@ -913,3 +913,120 @@ func uniqStrings(in []string) []string {
 	}
 	return out
 }
+
+// ---------------------------------------------------------------------------------------------
+// origins: backwards may-flow through value-preserving constructs
+
+// origins returns the source values that may flow into v through φ-nodes, tuple extraction,
+// type assertions, element loads of local slices (literals, appends, reslices), ranging, and
+// load/store chains of local allocs. The result contains the first values that are none of these.
+func origins(v ssa.Value) []ssa.Value {
+	seen := map[ssa.Value]bool{}
+	var out []ssa.Value
+	var walk func(v ssa.Value)
+	var elems func(s ssa.Value)
+	elemSeen := map[ssa.Value]bool{}
+	elems = func(s ssa.Value) { // origins of the elements of slice/array value s
+		if elemSeen[s] {
+			return
+		}
+		elemSeen[s] = true
+		switch x := s.(type) {
+		case *ssa.Slice:
+			if a, ok := x.X.(*ssa.Alloc); ok { // literal backing array
+				for _, r := range *a.Referrers() {
+					if ia, ok := r.(*ssa.IndexAddr); ok {
+						for _, rr := range *ia.Referrers() {
+							if st, ok := rr.(*ssa.Store); ok && st.Addr == ssa.Value(ia) {
+								walk(st.Val)
+							}
+						}
+					}
+				}
+				return
+			}
+			elems(x.X)
+		case *ssa.Phi:
+			for _, e := range x.Edges {
+				elems(e)
+			}
+		case *ssa.Call:
+			if b, ok := x.Call.Value.(*ssa.Builtin); ok && b.Name() == "append" {
+				elems(x.Call.Args[0])
+				if len(x.Call.Args) > 1 {
+					elems(x.Call.Args[1])
+				}
+				return
+			}
+			out = append(out, x) // slice produced by a call: the call is the origin
+		case *ssa.MakeSlice, *ssa.Const:
+		case *ssa.UnOp:
+			if x.Op == token.MUL {
+				if _, ok := x.X.(*ssa.Alloc); ok {
+					rs := reachingStores(x)
+					for _, sv := range rs.vals {
+						elems(sv)
+					}
+					return
+				}
+			}
+			out = append(out, x)
+		default:
+			out = append(out, s)
+		}
+	}
+	walk = func(v ssa.Value) {
+		if seen[v] {
+			return
+		}
+		seen[v] = true
+		switch x := v.(type) {
+		case *ssa.Phi:
+			for _, e := range x.Edges {
+				walk(e)
+			}
+		case *ssa.Extract:
+			switch t := x.Tuple.(type) {
+			case *ssa.TypeAssert:
+				walk(t.X)
+			case *ssa.Next: // range over map/string: element of the ranged value
+				if rg, ok := t.Iter.(*ssa.Range); ok {
+					out = append(out, rg.X)
+					return
+				}
+				out = append(out, v)
+			default:
+				out = append(out, v)
+			}
+		case *ssa.TypeAssert:
+			walk(x.X)
+		case *ssa.MakeInterface:
+			walk(x.X)
+		case *ssa.ChangeType:
+			walk(x.X)
+		case *ssa.ChangeInterface:
+			walk(x.X)
+		case *ssa.UnOp:
+			if x.Op == token.MUL {
+				switch a := x.X.(type) {
+				case *ssa.Alloc:
+					rs := reachingStores(x)
+					if len(rs.vals) > 0 {
+						for _, sv := range rs.vals {
+							walk(sv)
+						}
+						return
+					}
+				case *ssa.IndexAddr:
+					elems(a.X)
+					return
+				}
+			}
+			out = append(out, v)
+		default:
+			out = append(out, v)
+		}
+	}
+	walk(v)
+	return out
+}
